@@ -1,4 +1,5 @@
 import Mamba.Basic
+import Mamba.Gen.SortConsts
 /-!
 # Model of `ints/int_sort.go` (property C17): `ints.Sort`, a transcription of Go's `sort.Sort` introsort
 
@@ -23,6 +24,64 @@ loops), `partLoop`, `dupsTail`/`dupsLeft`/`dupsMid` (the three `if`s of the dupl
 namespace IntSort
 
 abbrev Data := Array Int
+
+/-- The literal constants of `ints/int_sort.go` that the model reads instead of hard-wiring them.  The value the
+driver runs with is `genCfg`, regenerated from the source on every run (`Gen/SortConsts.lean`); the theorems are
+proved for every configuration satisfying `Cfg.Admissible` (`Spec/IntSort.lean`), so a harmless retune of a
+tuning constant changes the model together with the code and leaves the proofs intact. -/
+structure Cfg where
+  /-- `for b-a > 12` in `quickSort` -/
+  qsSmall : Int
+  /-- `if b-a > 1` in `quickSort` -/
+  qsMin : Int
+  /-- the gap 6 of the Shell pass -/
+  shellGap : Int
+  /-- `>> 1` in `m := int(uint(lo+hi) >> 1)` -/
+  pivotShift : Nat
+  /-- `if hi-lo > 40` -/
+  nintherMin : Int
+  /-- `s := (hi - lo) / 8` -/
+  nintherDiv : Int
+  /-- the 2 of `lo+2*s`, `hi-1-2*s` -/
+  nintherMul : Int
+  /-- `protect := hi-c < 5` -/
+  protectMin : Int
+  /-- `hi-c < (hi-lo)/4` -/
+  dupsDiv : Int
+  /-- `protect = dups > 1` -/
+  dupsMin : Nat
+  /-- `child := 2*root + 1` -/
+  heapMul : Int
+  heapAdd : Int
+  /-- the sibling `child+1` -/
+  heapSib : Int
+  /-- `for i := (hi - 1) / 2` in `heapSort` -/
+  heapBuildSub : Int
+  heapBuildDiv : Int
+  /-- `i >>= 1` in `maxDepth` -/
+  mdShift : Nat
+  /-- `return depth * 2` -/
+  mdMul : Nat
+
+/-- the constants as they are in the source now -/
+def genCfg : Cfg where
+  qsSmall := Gen.Sort.qsSmall
+  qsMin := Gen.Sort.qsMin
+  shellGap := Gen.Sort.shellGap
+  pivotShift := Gen.Sort.pivotShift
+  nintherMin := Gen.Sort.nintherMin
+  nintherDiv := Gen.Sort.nintherDiv
+  nintherMul := Gen.Sort.nintherMul
+  protectMin := Gen.Sort.protectMin
+  dupsDiv := Gen.Sort.dupsDiv
+  dupsMin := Gen.Sort.dupsMin
+  heapMul := Gen.Sort.heapMul
+  heapAdd := Gen.Sort.heapAdd
+  heapSib := Gen.Sort.heapSib
+  heapBuildSub := Gen.Sort.heapBuildSub
+  heapBuildDiv := Gen.Sort.heapBuildDiv
+  mdShift := Gen.Sort.mdShift
+  mdMul := Gen.Sort.mdMul
 
 /-- `data[i]` -/
 def get (d : Data) (i : Int) : Outcome Int :=
@@ -77,10 +136,11 @@ def insertionSort (d : Data) (a b : Int) : Outcome Data := insertOuter d a b (a+
 
 /-! ## heapSort -/
 
-/-- `if child+1 < hi && data[first+child] < data[first+child+1] { child++ }` — returns `child`. -/
-def pickChild (d : Data) (first child hi : Int) : Outcome Int :=
-  if child + 1 < hi then
-    match lt d (first+child) (first+child+1) with
+/-- `if child+1 < hi && data[first+child] < data[first+child+1] { child++ }` — returns `child` (the two `+1` of the
+condition are `cfg.heapSib`, the `++` is `+1`). -/
+def pickChild (c : Cfg) (d : Data) (first child hi : Int) : Outcome Int :=
+  if child + c.heapSib < hi then
+    match lt d (first+child) (first+child+c.heapSib) with
     | .ok true => .ok (child+1)
     | .ok false => .ok child
     | .panic => .panic
@@ -88,20 +148,20 @@ def pickChild (d : Data) (first child hi : Int) : Outcome Int :=
   else .ok child
 
 /-- the `for { … }` loop of `siftDown` from the current `root`. -/
-def siftLoop : Nat → Data → Int → Int → Int → Outcome Data
+def siftLoop (cfg : Cfg) : Nat → Data → Int → Int → Int → Outcome Data
   | 0, _, _, _, _ => .outOfFuel
   | f+1, d, root, hi, first =>
-    let child := 2*root + 1
+    let child := cfg.heapMul*root + cfg.heapAdd
     if child ≥ hi then .ok d
     else
-      match pickChild d first child hi with
+      match pickChild cfg d first child hi with
       | .ok c =>
         -- if data[first+root] >= data[first+child] { return }
         match lt d (first+root) (first+c) with
         | .ok false => .ok d
         | .ok true =>
           match swap d (first+root) (first+c) with
-          | .ok d' => siftLoop f d' c hi first
+          | .ok d' => siftLoop cfg f d' c hi first
           | .panic => .panic
           | .outOfFuel => .outOfFuel
         | .panic => .panic
@@ -111,13 +171,13 @@ def siftLoop : Nat → Data → Int → Int → Int → Outcome Data
 
 /-- `siftDown(data, lo, hi, first)`; every iteration at least doubles `root+1`, fuel `hi+1` suffices
 for `lo ≥ 0` (theorem `IntSort.heapSort_ok`). -/
-def siftDown (d : Data) (lo hi first : Int) : Outcome Data := siftLoop (hi.toNat + 1) d lo hi first
+def siftDown (c : Cfg) (d : Data) (lo hi first : Int) : Outcome Data := siftLoop c (hi.toNat + 1) d lo hi first
 
 /-- `for i := (hi-1)/2; i >= 0; i-- { siftDown(data, i, hi, first) }` from the current `i`. -/
-def heapBuild (d : Data) (i hi first : Int) : Outcome Data :=
+def heapBuild (c : Cfg) (d : Data) (i hi first : Int) : Outcome Data :=
   if _h : 0 ≤ i then
-    match siftDown d i hi first with
-    | .ok d' => heapBuild d' (i-1) hi first
+    match siftDown c d i hi first with
+    | .ok d' => heapBuild c d' (i-1) hi first
     | .panic => .panic
     | .outOfFuel => .outOfFuel
   else .ok d
@@ -125,12 +185,12 @@ termination_by (i+1).toNat
 decreasing_by omega
 
 /-- `for i := hi-1; i >= 0; i-- { swap first, first+i; siftDown(data, lo, i, first) }` -/
-def heapPop (d : Data) (i first : Int) : Outcome Data :=
+def heapPop (c : Cfg) (d : Data) (i first : Int) : Outcome Data :=
   if _h : 0 ≤ i then
     match swap d first (first+i) with
     | .ok d1 =>
-      match siftDown d1 0 i first with
-      | .ok d2 => heapPop d2 (i-1) first
+      match siftDown c d1 0 i first with
+      | .ok d2 => heapPop c d2 (i-1) first
       | .panic => .panic
       | .outOfFuel => .outOfFuel
     | .panic => .panic
@@ -139,11 +199,11 @@ def heapPop (d : Data) (i first : Int) : Outcome Data :=
 termination_by (i+1).toNat
 decreasing_by omega
 
-def heapSort (d : Data) (a b : Int) : Outcome Data :=
+def heapSort (c : Cfg) (d : Data) (a b : Int) : Outcome Data :=
   let first := a
   let hi := b - a
-  match heapBuild d (Int.tdiv (hi-1) 2) hi first with
-  | .ok d' => heapPop d' (hi-1) first
+  match heapBuild c d (Int.tdiv (hi-c.heapBuildSub) c.heapBuildDiv) hi first with
+  | .ok d' => heapPop c d' (hi-1) first
   | .panic => .panic
   | .outOfFuel => .outOfFuel
 
@@ -309,13 +369,13 @@ def dupsBlock (d : Data) (pivot m hi b c : Int) : Outcome (Data × Int × Int ×
   | .outOfFuel => .outOfFuel
 
 /-- `if hi-lo > 40 { s := (hi-lo)/8; medianOfThree ×3 }` (Tukey's ninther) -/
-def ninther (d : Data) (lo hi m : Int) : Outcome Data :=
-  if hi - lo > 40 then
-    let s := Int.tdiv (hi - lo) 8
-    match medianOfThree d lo (lo+s) (lo+2*s) with
+def ninther (c : Cfg) (d : Data) (lo hi m : Int) : Outcome Data :=
+  if hi - lo > c.nintherMin then
+    let s := Int.tdiv (hi - lo) c.nintherDiv
+    match medianOfThree d lo (lo+s) (lo+c.nintherMul*s) with
     | .ok d1 =>
       match medianOfThree d1 m (m-s) (m+s) with
-      | .ok d2 => medianOfThree d2 (hi-1) (hi-1-s) (hi-1-2*s)
+      | .ok d2 => medianOfThree d2 (hi-1) (hi-1-s) (hi-1-c.nintherMul*s)
       | .panic => .panic
       | .outOfFuel => .outOfFuel
     | .panic => .panic
@@ -324,11 +384,11 @@ def ninther (d : Data) (lo hi m : Int) : Outcome Data :=
 
 /-- `protect := hi-c < 5; if !protect && hi-c < (hi-lo)/4 { dups block; protect = dups > 1 }` —
 returns `(data, b, c, protect)`. -/
-def dupsStage (d : Data) (lo m hi b c : Int) : Outcome (Data × Int × Int × Bool) :=
-  let protect0 := decide (hi - c < 5)
-  if !protect0 && decide (hi - c < Int.tdiv (hi - lo) 4) then
+def dupsStage (cfg : Cfg) (d : Data) (lo m hi b c : Int) : Outcome (Data × Int × Int × Bool) :=
+  let protect0 := decide (hi - c < cfg.protectMin)
+  if !protect0 && decide (hi - c < Int.tdiv (hi - lo) cfg.dupsDiv) then
     match dupsBlock d lo m hi b c with
-    | .ok (d3, b3, c3, dups) => .ok (d3, b3, c3, decide (dups > 1))
+    | .ok (d3, b3, c3, dups) => .ok (d3, b3, c3, decide (dups > cfg.dupsMin))
     | .panic => .panic
     | .outOfFuel => .outOfFuel
   else .ok (d, b, c, protect0)
@@ -343,12 +403,12 @@ def protectStage (fuel : Nat) (d : Data) (lo a b : Int) (protect : Bool) : Outco
   else .ok (d, b)
 
 /-- `doPivot(data, lo, hi)` returns `(data, midlo, midhi)`. -/
-def doPivot (d : Data) (lo hi : Int) : Outcome (Data × Int × Int) :=
+def doPivot (cfg : Cfg) (d : Data) (lo hi : Int) : Outcome (Data × Int × Int) :=
   if lo + hi < 0 then .panic
   else
-    let m := (lo + hi) / 2
+    let m := (lo + hi) / 2 ^ cfg.pivotShift
     let fuel := (hi - lo).toNat + 1
-    match ninther d lo hi m with
+    match ninther cfg d lo hi m with
     | .ok d0 =>
       match medianOfThree d0 lo m (hi-1) with
       | .ok d1 =>
@@ -357,7 +417,7 @@ def doPivot (d : Data) (lo hi : Int) : Outcome (Data × Int × Int) :=
         | .ok a =>
           match partLoop fuel d1 pivot a (hi-1) with
           | .ok (d2, b, c) =>
-            match dupsStage d2 lo m hi b c with
+            match dupsStage cfg d2 lo m hi b c with
             | .ok (d3, b3, c3, protect) =>
               match protectStage fuel d3 pivot a b3 protect with
               | .ok (d4, b4) =>
@@ -381,10 +441,10 @@ def doPivot (d : Data) (lo hi : Int) : Outcome (Data × Int × Int) :=
 /-! ## quickSort -/
 
 /-- `for i := a + 6; i < b; i++ { if data[i] < data[i-6] { swap i, i-6 } }` from the current `i`. -/
-def shellPass (d : Data) (b i : Int) : Outcome Data :=
+def shellPass (c : Cfg) (d : Data) (b i : Int) : Outcome Data :=
   if _h : i < b then
-    match swapIfLt d i (i-6) with
-    | .ok d' => shellPass d' b (i+1)
+    match swapIfLt d i (i-c.shellGap) with
+    | .ok d' => shellPass c d' b (i+1)
     | .panic => .panic
     | .outOfFuel => .outOfFuel
   else .ok d
@@ -393,50 +453,50 @@ decreasing_by omega
 
 /-- `quickSort(data, a, b, maxDepth)`; one unit of fuel per loop iteration / call (the chain is at most
 `maxDepth + 1` long, see `sort`). -/
-def quickSort : Nat → Data → Int → Int → Nat → Outcome Data
+def quickSort (c : Cfg) : Nat → Data → Int → Int → Nat → Outcome Data
   | 0, _, _, _, _ => .outOfFuel
   | f+1, d, a, b, maxDepth =>
-    if b - a > 12 then
+    if b - a > c.qsSmall then
       match maxDepth with
-      | 0 => heapSort d a b
+      | 0 => heapSort c d a b
       | md+1 =>
-        match doPivot d a b with
+        match doPivot c d a b with
         | .ok (d1, mlo, mhi) =>
           if mlo - a < b - mhi then
-            match quickSort f d1 a mlo md with
-            | .ok d2 => quickSort f d2 mhi b md
+            match quickSort c f d1 a mlo md with
+            | .ok d2 => quickSort c f d2 mhi b md
             | .panic => .panic
             | .outOfFuel => .outOfFuel
           else
-            match quickSort f d1 mhi b md with
-            | .ok d2 => quickSort f d2 a mlo md
+            match quickSort c f d1 mhi b md with
+            | .ok d2 => quickSort c f d2 a mlo md
             | .panic => .panic
             | .outOfFuel => .outOfFuel
         | .panic => .panic
         | .outOfFuel => .outOfFuel
-    else if b - a > 1 then
-      match shellPass d b (a+6) with
+    else if b - a > c.qsMin then
+      match shellPass c d b (a+c.shellGap) with
       | .ok d1 => insertionSort d1 a b
       | .panic => .panic
       | .outOfFuel => .outOfFuel
     else .ok d
 
 /-- `for i := n; i > 0; i >>= 1 { depth++ }` -/
-def maxDepthLoop : Nat → Nat → Nat → Outcome Nat
+def maxDepthLoop (c : Cfg) : Nat → Nat → Nat → Outcome Nat
   | 0, _, _ => .outOfFuel
-  | f+1, i, depth => if i > 0 then maxDepthLoop f (i / 2) (depth + 1) else .ok depth
+  | f+1, i, depth => if i > 0 then maxDepthLoop c f (i >>> c.mdShift) (depth + 1) else .ok depth
 
 /-- `maxDepth(n)` = `2 * (number of binary digits of n)`. -/
-def maxDepth (n : Nat) : Outcome Nat :=
-  match maxDepthLoop (n + 1) n 0 with
-  | .ok depth => .ok (depth * 2)
+def maxDepth (c : Cfg) (n : Nat) : Outcome Nat :=
+  match maxDepthLoop c (n + 1) n 0 with
+  | .ok depth => .ok (depth * c.mdMul)
   | .panic => .panic
   | .outOfFuel => .outOfFuel
 
 /-- `Sort(a)` -/
-def sort (d : Data) : Outcome Data :=
-  match maxDepth d.size with
-  | .ok md => quickSort (md + 2) d 0 d.size md
+def sort (c : Cfg) (d : Data) : Outcome Data :=
+  match maxDepth c d.size with
+  | .ok md => quickSort c (md + 2) d 0 d.size md
   | .panic => .panic
   | .outOfFuel => .outOfFuel
 
